@@ -59,7 +59,29 @@ func eqProj(a, b *stateProj) bool { return derefS(a) == derefS(b) }
 // monitor evaluates the property predicates on the implementation's observations of one node
 // trace. prop selects which property's classes are reported ("C08" or "C09").
 func (w *world) monitor(rep *emit.Report, prop string, hid int, n *node) {
+	// M16 bookkeeping: packet signatures refused / applied so far at this node, and signatures the
+	// node produced itself (deterministic BLS: its own command may re-create a signature)
+	refused, applied, own := map[string]bool{}, map[string]bool{}, map[string]bool{}
 	for k, st := range n.steps {
+		if prop == "C08" {
+			if st.ev.kind == evCommand && st.csig != nil {
+				own[string(st.csig)] = true
+			}
+			if st.ev.kind == evPacket && st.ev.packet.GetMetadata() != nil && st.ev.packet.GetDkg() == nil {
+				sig := string(st.ev.packet.GetMetadata().GetSignature())
+				switch {
+				case st.accepted:
+					applied[sig] = true
+				case st.class == "ok" && refused[sig] && !applied[sig] && !own[sig]:
+					// a packet that was refused leaves no trace: delivered again it is judged afresh, it is
+					// not acknowledged as an already-processed duplicate
+					rep.Fail("C08-rejected-packet-cannot-be-redelivered",
+						"a packet that this node had only ever refused was acknowledged as a duplicate without being applied when it was delivered again", stepInput(hid, n, k))
+				case st.class != "ok" && st.class != "unobserved":
+					refused[sig] = true
+				}
+			}
+		}
 		b, a := st.before, st.after
 		in := func() map[string]interface{} { return stepInput(hid, n, k) }
 		isFinish := st.ev.kind == evFinishFail || st.ev.kind == evFinishObs
